@@ -157,6 +157,7 @@ func rulesC20(p *Prog, r *Report) {
 
 	r.Rule("R20.5", "a genesis id-counter field is restored through the setter of the same kind", 2)
 	r.Rule("R20.6", "modules whose InitGenesis reads another module's state are initialised after it", 2)
+	r.Rule("R20.7", "genesis fields are filled from the reader of the same name and restored through parameters of the same name", 25)
 	initOrder := p.initGenesisOrder()
 	orderIdx := map[string]int{}
 	for i, n := range initOrder {
@@ -314,6 +315,9 @@ func rulesC20(p *Prog, r *Report) {
 				}
 			}
 		}
+
+		// R20.7 name agreement on both sides of the round trip
+		genesisNameAgreement(p, r, "R20.7", m, exportReach, initReach)
 
 		// R20.6 init order
 		if mn := modName[m]; mn != "" {
@@ -624,4 +628,173 @@ func (p *Prog) initGenesisOrder() []string {
 		}
 	}
 	return out
+}
+
+func genTokens(name string) map[string]bool {
+	out := map[string]bool{}
+	for _, t := range camelTokens(name) {
+		switch t {
+		case "get", "set", "all", "last", "id", "ids", "data", "the", "of", "for", "by", "list", "gen", "genesis", "new", "wise", "mapping", "map", "records", "record":
+			continue
+		case "bidding":
+			t = "bid"
+		case "mm": // the repository's abbreviation of "market making"
+			out["market"], out["making"] = true, true
+			continue
+		}
+		if len(t) > 3 && strings.HasSuffix(t, "ies") {
+			t = t[:len(t)-3] + "y"
+		} else if len(t) > 2 && strings.HasSuffix(t, "s") && !strings.HasSuffix(t, "ss") {
+			t = t[:len(t)-1]
+		}
+		out[t] = true
+	}
+	return out
+}
+
+func tokSubset(a, b map[string]bool) bool {
+	for t := range a {
+		if !b[t] {
+			return false
+		}
+	}
+	return true
+}
+
+// genesisNameAgreement (R20.7):
+//   export: a field of a genesis document filled directly from a keeper reader Get<X> carries
+//           the name of that reader (LastPoolId <- GetLastPoolID, not GetLastPairID);
+//   import: a field of a genesis record handed to a keeper function goes to a parameter of the
+//           same name where both names are decidable (item.Name -> name, item.Denom -> denom,
+//           id kinds as in the identifier-kind rule).
+func genesisNameAgreement(p *Prog, r *Report, rule, m string, exportReach, initReach map[*ssa.Function]bool) {
+	var efs []*ssa.Function
+	for f := range exportReach {
+		if moduleOf(f) == m {
+			efs = append(efs, f)
+		}
+	}
+	sort.Slice(efs, func(i, j int) bool { return fname(efs[i]) < fname(efs[j]) })
+	for _, fn := range efs {
+		for _, b := range fn.Blocks {
+			for _, in := range b.Instrs {
+				st, ok := in.(*ssa.Store)
+				if !ok {
+					continue
+				}
+				fa, ok := st.Addr.(*ssa.FieldAddr)
+				if !ok {
+					continue
+				}
+				tn := namedTypeName(fa.X.Type())
+				if !strings.Contains(tn, "Genesis") {
+					continue
+				}
+				field := fieldName(fa.X.Type(), fa.Field)
+				os := p.Origins(st.Val)
+				if len(os) != 1 || os[0].Kind != "call" || len(os[0].Path) != 0 {
+					continue
+				}
+				ts := p.Callees(os[0].Call)
+				if len(ts) == 0 || !isComdexFn(ts[0]) || !strings.HasPrefix(ts[0].Name(), "Get") || ts[0].Signature.Recv() == nil {
+					continue
+				}
+				ft, gt := genTokens(field), genTokens(ts[0].Name())
+				if len(ft) == 0 || len(gt) == 0 {
+					continue
+				}
+				r.Instance(rule)
+				r.FuncsSeen[fname(fn)] = true
+				construct := fmt.Sprintf("module %s export %s.%s <- %s", m, tn, field, ts[0].Name())
+				if tokSubset(ft, gt) || tokSubset(gt, ft) {
+					r.OK(rule, construct, "field filled from the reader of the same name", p.instrPos(st))
+				} else {
+					r.Fail(rule, construct, fmt.Sprintf("the genesis field %s is filled from %s, a reader of something else: the exported document carries the wrong value under that name and the import restores it faithfully", field, ts[0].Name()), p.instrPos(st), nil)
+				}
+			}
+		}
+	}
+	var ifs []*ssa.Function
+	for f := range initReach {
+		if moduleOf(f) == m && !strings.Contains(fnPkgPath(f), "/keeper") {
+			ifs = append(ifs, f) // the InitGenesis functions themselves (x/<m>/genesis.go)
+		}
+	}
+	for f := range initReach {
+		if moduleOf(f) == m && strings.Contains(fnPkgPath(f), "/keeper") && strings.Contains(strings.ToLower(f.Name()), "genesis") {
+			ifs = append(ifs, f)
+		}
+	}
+	sort.Slice(ifs, func(i, j int) bool { return fname(ifs[i]) < fname(ifs[j]) })
+	strKind := func(name string) string {
+		den, nam := false, false
+		for _, t := range camelTokens(name) {
+			switch t {
+			case "denom":
+				den = true
+			case "name":
+				nam = true
+			}
+		}
+		switch {
+		case den && !nam:
+			return "denom"
+		case nam && !den:
+			return "name"
+		}
+		return ""
+	}
+	for _, fn := range ifs {
+		n := map[string]int{}
+		for _, c := range calls(fn) {
+			ts := p.Callees(c)
+			if len(ts) == 0 || !isComdexFn(ts[0]) || ts[0].Signature.Recv() == nil || strings.HasSuffix(fnPkgPath(ts[0]), "/types") {
+				continue
+			}
+			t := ts[0]
+			args := callArgs(c)
+			pk := paramKinds(t)
+			for i, a := range args {
+				if i >= t.Signature.Params().Len() {
+					continue
+				}
+				pname := t.Signature.Params().At(i).Name()
+				var want, have string
+				switch {
+				case isUint64(a.Type()) && i < len(pk) && pk[i] != "":
+					want, have = pk[i], p.argKind(a)
+				case a.Type().String() == "string":
+					want = strKind(pname)
+					for _, o := range p.Origins(a) {
+						if len(o.Path) == 0 {
+							have = ""
+							break
+						}
+						k := strKind(o.Path[len(o.Path)-1])
+						if k == "" || (have != "" && have != k) {
+							have = ""
+							break
+						}
+						have = k
+					}
+				}
+				if want == "" || have == "" {
+					continue
+				}
+				r.Instance(rule)
+				r.FuncsSeen[fname(fn)] = true
+				base := fmt.Sprintf("module %s import %s -> %s arg %d (%s)", m, fname(fn), t.Name(), i, pname)
+				n[base]++
+				construct := base
+				if n[base] > 1 {
+					construct = fmt.Sprintf("%s #%d", base, n[base])
+				}
+				if have == want || compatibleKinds(have, want) {
+					r.OK(rule, construct, "a "+have+" goes to the "+want+" parameter", p.instrPos(c))
+				} else {
+					r.Fail(rule, construct, fmt.Sprintf("a %s of the genesis record is restored through the %s parameter of %s: the index / counter rebuilt at import differs from the exported chain's", have, want, t.Name()), p.instrPos(c), nil)
+				}
+			}
+		}
+	}
 }
